@@ -7,6 +7,14 @@ use optrs::verif::*;
 
 struct Run { ok: bool, opt: Option<Vec<u8>> }
 
+/// run the tool with `cwd` as its working directory (which may have a name that is not valid UTF-8); read the result through `dir`
+fn run_in_path(cwd: &std::path::Path, dir: &str, args: &[String]) -> Run {
+    let ok = std::process::Command::new(cli_path()).args(args).current_dir(cwd).stdout(std::process::Stdio::null()).stderr(std::process::Stdio::null())
+        .status().map(|s| s.success()).unwrap_or(false);
+    Run { ok, opt: std::fs::read(format!("{}/opt.xyz", dir)).ok() }
+}
+
+#[allow(dead_code)]
 fn run_in(dir: &str, args: &[String]) -> Run {
     let mut cmd = std::process::Command::new(cli_path());
     cmd.current_dir(dir).args(args).stdout(std::process::Stdio::null()).stderr(std::process::Stdio::null());
@@ -43,7 +51,7 @@ pub fn run(out: &mut Out, seed: u64, tier: &str) {
         // round the coordinates to what the input file will carry, so the in-process reference starts from the same data
         // every third input carries a title in Latin-1 (0xC5 = A-ring, 0xE9 = e-acute: not valid UTF-8), as older programs write them
         let latin1 = k % 3 == 2;
-        let mut text = format!("{}\n{}\n", m.n(), if latin1 { "r(OH) in @A, @energie" } else { "" });
+        let mut text = format!("{}\n{}\n", m.n(), if latin1 { "r(OH) in @A, @energie".to_string() } else if k % 3 == 1 { (*rng.pick(&crate::s_xyz::TITLES)).to_string() } else { String::new() });
         for (s, p) in m.symbols().iter().zip(m.xs.iter()) { text += &format!("{} {:.8} {:.8} {:.8}\n", s, p[0], p[1], p[2]); }
         let mr = { let (syms, xs) = parse_xyz(text.as_bytes()).unwrap(); Mol { name: m.name.clone(), zs: syms.iter().map(|s| z_of(s)).collect(), xs } };
         let variants: Vec<(Vec<&str>, &str)> = vec![
@@ -66,9 +74,18 @@ pub fn run(out: &mut Out, seed: u64, tier: &str) {
         for hn in hinted_names.iter() { variants.push((vec![hn.as_str()], hn.as_str())); variants.push((vec![hn.as_str(), "-f", "RB"], hn.as_str())); }
         for (vi, (args, fname)) in variants.iter().enumerate() {
             if tier != "thorough" && k > 1 && vi % 3 != (k % 3) { continue; }
-            let dir = format!("/var/tmp/optrs-verif-scratch/c15-{}-{}-{}", std::process::id(), k, vi);
-            let _ = std::fs::remove_dir_all(&dir);
-            std::fs::create_dir_all(&dir).unwrap();
+            // the working directory's own name: plain, with a space, with UTF-8 letters, or (every fifth run) with a Latin-1 byte that is
+            // not valid UTF-8 — legal on this file system, and where the run happens is no business of the result
+            let base_dir = format!("/var/tmp/optrs-verif-scratch/c15-{}-{}-{}", std::process::id(), k, vi);
+            let _ = std::fs::remove_dir_all(&base_dir);
+            std::fs::create_dir_all(&base_dir).unwrap();
+            let odd_name: Option<std::ffi::OsString> = match (k + vi) % 5 { 1 => Some("my run".into()), 2 => Some("mol\u{e9}cules-\u{3b1}".into()),
+                3 => { use std::os::unix::ffi::OsStringExt; Some(std::ffi::OsString::from_vec(b"mol\xE9cules".to_vec())) } _ => None };
+            let dir_path: std::path::PathBuf = match &odd_name { Some(nm) => std::path::Path::new(&base_dir).join(nm), None => std::path::PathBuf::from(&base_dir) };
+            std::fs::create_dir_all(&dir_path).unwrap();
+            // (the harness itself addresses the directory through a symbolic link with a plain name)
+            let dir = if odd_name.is_some() { let link = format!("{}-link", base_dir); let _ = std::fs::remove_file(&link); std::os::unix::fs::symlink(&dir_path, &link).unwrap(); link } else { base_dir.clone() };
+            let run_dir: std::path::PathBuf = dir_path.clone();
             if let Some(parent) = std::path::Path::new(&format!("{}/{}", dir, fname)).parent() { std::fs::create_dir_all(parent).unwrap(); }
             let file_bytes: Vec<u8> = if latin1 { let mut b = text.clone().into_bytes(); let mut seen = 0; for v in b.iter_mut() { if *v == b'@' { *v = if seen == 0 { 0xC5 } else { 0xE9 }; seen += 1; } } b } else { text.clone().into_bytes() };
             std::fs::write(format!("{}/{}", dir, fname), &file_bytes).unwrap();
@@ -78,7 +95,7 @@ pub fn run(out: &mut Out, seed: u64, tier: &str) {
             let sentinel: Vec<u8> = if input_is_output { let mut b = text.clone().into_bytes(); if latin1 { let mut seen = 0; for v in b.iter_mut() { if *v == b'@' { *v = if seen == 0 { 0xC5 } else { 0xE9 }; seen += 1; } } } b } else { sentinel.clone() };
             if pre_existing { std::fs::write(format!("{}/opt.xyz", dir), &sentinel).unwrap(); }
             let argv: Vec<String> = args.iter().map(|s| s.to_string()).collect();
-            let r = run_in(&dir, &argv);
+            let r = run_in_path(&run_dir, &dir, &argv);
             // an output written anywhere but the working directory is a stray file
             let stray = std::path::Path::new(&format!("{}/{}", dir, fname)).parent().map(|p| p.join("opt.xyz"))
                 .map(|p| p != std::path::Path::new(&format!("{}/opt.xyz", dir)) && p.canonicalize().ok() != std::path::Path::new(&format!("{}/opt.xyz", dir)).canonicalize().ok() && p.exists()
@@ -86,7 +103,8 @@ pub fn run(out: &mut Out, seed: u64, tier: &str) {
             // an input that is not the output file must be left as it was
             if !input_is_output && std::fs::read(format!("{}/{}", dir, fname)).ok().as_deref() != Some(&file_bytes[..]) {
                 out.oracle_fail("the input file was changed or removed by the run", &format!("optrs {:?} with the input at {}", args, fname)); }
-            let _ = std::fs::remove_dir_all(&dir);
+            if odd_name.is_some() { let _ = std::fs::remove_file(&dir); }
+            let _ = std::fs::remove_dir_all(&base_dir);
             if stray { out.oracle_fail("an opt.xyz was written next to the input file instead of (or besides) the working directory", &format!("optrs {:?} with the input at {}", args, fname)); }
             n_runs += 1;
             let wrote = match &r.opt { Some(b) => *b != sentinel, None => false };
